@@ -18,7 +18,7 @@ def write_if_changed(path, text):
 def main():
     import tables_tr
     write_if_changed(os.path.join(GEN, 'TypeRank.v'), tables_tr.type_rank(REPO))
-    for name in ('thread_tr', 'store_tr', 'arith_tr', 'vocab_tr'):
+    for name in ('thread_tr', 'store_tr', 'arith_tr', 'vocab_tr', 'copysites_tr'):
         try:
             mod = __import__(name)
         except ImportError:
